@@ -24,6 +24,13 @@ RULE = ("exhaustive: every concrete class x every declared child (element, sub-a
         "well-formedness report; non-trivial and distinct by (class, child)")
 
 
+def _holds(inst, a):
+    if a["k"] in ("listagg", "listelem"):
+        return len(list(list.__iter__(inst))) > 0 if a["k"] == "listelem" else any(
+            type(m).__name__.lower() == a["name"] for m in list.__iter__(inst))
+    return inst.__dict__.get(a["name"]) is not None
+
+
 def run(ctx):
     from ofxtools.models.base import Aggregate
     schema = ctx.schema
@@ -43,6 +50,12 @@ def run(ctx):
                 continue
             attr = a["name"]
             d, inst = gen.valid_instance(name, tries=12, force=[attr])
+            for _retry in range(6):
+                # the probe is about the class, not about the generator: insist on an instance that holds the child
+                if d is None or _holds(inst, a):
+                    break
+                ctx.stat("generator_retry")
+                d, inst = gen.valid_instance(name, tries=12, force=[attr])
             case = {"cls": name, "child": attr, "kind": a["k"]}
             if d is None:
                 ctx.evaluations += 1
